@@ -50,7 +50,7 @@ PROPERTIES["C12"] = dict(
     ],
 )
 
-PIPE_FILES = ["pipeline/zz_verif_pipe.go", "pipeline/zz_verif_p08.go", "pipeline/zz_verif_p01.go", "pipeline/zz_verif_p01b.go", "pipeline/zz_verif_p01x.go", "pipeline/zz_verif_p01r.go", "pipeline/zz_verif_p13.go", "pipeline/zz_verif_p10.go", "pipeline/zz_verif_p09.go", "pipeline/zz_verif_p14.go", "pipeline/zz_verif_p07.go", "config::config/zz_verif_export.go", "annotation::annotation/zz_verif_export.go", "assertion/global::global/zz_verif_export.go"]
+PIPE_FILES = ["pipeline/zz_verif_pipe.go", "pipeline/zz_verif_p08.go", "pipeline/zz_verif_p01.go", "pipeline/zz_verif_p01b.go", "pipeline/zz_verif_p01x.go", "pipeline/zz_verif_p01r.go", "pipeline/zz_verif_p13.go", "pipeline/zz_verif_p10.go", "pipeline/zz_verif_p09.go", "pipeline/zz_verif_p14.go", "pipeline/zz_verif_p12.go", "pipeline/zz_verif_p07.go", "config::config/zz_verif_export.go", "annotation::annotation/zz_verif_export.go", "assertion/global::global/zz_verif_export.go"]
 INFER_FILES = ["inference/zz_verif_c05.go", "inference/zz_verif_c05l2.go", "inference/zz_verif_c06.go", "inference/zz_verif_c04.go", "inference/zz_verif_c15.go", "inference/zz_verif_c15m.go", "inference/zz_verif_c08.go", "inference/zz_verif_registry.go",
                "annotation::annotation/zz_verif_export.go"]
 
@@ -445,13 +445,15 @@ PROPERTIES["C13"]["bounds"]["thorough"] += "; pretty printing: 5544 message shap
 PROPERTIES["C13"]["outside"] = [o for o in PROPERTIES["C13"]["outside"] if "retty" not in o] + ["pretty printing of messages outside the enumerated shapes (arbitrary code text)"]
 
 PROPERTIES["C01"]["runs"] += [
-    dict(pkg="accumulation", files=PIPE_FILES, entry="Harness_P01L", quick=dict(params=dict(SIMPLE=5, COMPOUND=2, ORDERS=4)), thorough=dict(params=dict(SIMPLE=9, COMPOUND=4, ORDERS=5)),
+    dict(pkg="accumulation", files=PIPE_FILES, entry="Harness_P01L", quick=dict(params=dict(SIMPLE=5, COMPOUND=2, ORDERS=4)), thorough=dict(params=dict(SIMPLE=9, COMPOUND=4, ORDERS=4)),
          args=dict(sample_every=197, max_samples=20)),
+    dict(pkg="accumulation", files=PIPE_FILES, entry="Harness_P01L", name="_two_structured", quick=dict(params=dict(SIMPLE=2, COMPOUND=2, ORDERMIN=4, ORDERS=5)), thorough=dict(params=dict(SIMPLE=5, COMPOUND=2, ORDERMIN=4, ORDERS=5)),
+         args=dict(sample_every=197, max_samples=12)),
 ]
 PROPERTIES["C01"]["explanation"] += (" P01L adds one structured statement before or after a base statement (thorough: also two structured statements): a counted loop with an opaque bound, condition loops on x (a body that does not change the "
     "condition diverges), tagless and tagged switches on x == nil with two arms, and calls of pointer-receiver methods that dereference or check their receiver.")
 PROPERTIES["C01"]["bounds"]["quick"] += "; P01L: 1580 programs (one structured statement - 3 loop forms, 4 switch forms incl. compound case conditions, 4 receiver forms over 5 straight-line bodies - next to one of 7 base statements or a nil-checked dereference that returns, in 3 spellings)"
-PROPERTIES["C01"]["bounds"]["thorough"] += "; P01L: all programs over 9 straight-line bodies incl. two structured statements"
+PROPERTIES["C01"]["bounds"]["thorough"] += "; P01L: all programs with one structured statement over 9 straight-line bodies; all pairs of structured statements over 5 bodies"
 PROPERTIES["C01"]["outside"] = [o.replace("loops, switches, methods, struct fields", "nested loops, loops around compound statements, struct fields") for o in PROPERTIES["C01"]["outside"]]
 PROPERTIES["C02"]["runs"] += [
     dict(pkg="accumulation", files=PIPE_FILES, entry="Harness_P01L", name="_guards", quick=dict(params=dict(SIMPLE=5, COMPOUND=2, ORDERS=4)), thorough=dict(params=dict(SIMPLE=9, COMPOUND=4, ORDERS=4)),
@@ -536,3 +538,8 @@ PROPERTIES["C14"]["explanation"] += (" Source level (P14): " + PIPE_EXPL + "for 
     "(findings in the dependency's file included), its message lists at least one flow step, every positioned step names an existing file:line:column, and the last positioned step is the reported position.")
 PROPERTIES["C14"]["bounds"]["quick"] += "; source level: the 1043 two-statement two-package programs"
 PROPERTIES["C14"]["outside"] = PROPERTIES["C14"]["outside"] + ["source level: the dependency's file is parsed into the importer's file set (real line tables), not recreated as a fake file from export data - that mapping is the toPos kernel"]
+
+PROPERTIES["C12"]["runs"] += [dict(pkg="accumulation", files=PIPE_FILES, entry="Harness_P12", quick=dict(params=dict(STMTS=2, COMPOUND=4)), thorough=dict(params=dict(STMTS=2, COMPOUND=5)), args=dict(sample_every=61, max_samples=16))]
+PROPERTIES["C12"]["explanation"] += (" Source level (P12): " + PIPE_EXPL + "the two-package programs of the C01 grammar are analysed with -exclude-pkgs naming the dependency or the importer: the excluded package's analysis yields no diagnostic and exports no fact, "
+    "and excluding the importer leaves the dependency's report and facts unchanged.")
+PROPERTIES["C12"]["bounds"]["quick"] += "; source level: the two-statement two-package programs x {dependency excluded, importer excluded}"
